@@ -281,6 +281,10 @@ class CallMixin:
                 (s_, v) = self.ev1(self.parse(rg["when"]), dict(old_env), st)
                 (s_, w), = self.truth(v, st)
                 w = simp(w)
+                if w is not False and w is not True:
+                    dec = self.decide(st, w)      # most call sites are clearly outside
+                    if dec is not None:
+                        w = dec
                 outside = z_and(outside, z_not(w))
                 if w is False:
                     continue
